@@ -256,3 +256,51 @@ claim('C20',
       'Not decided: add_mods(strip(s), get_mods(s)) == s for every s; that equality distinguishes every '
       'perturbation (value-level).',
       'DESIGN.md section 4 C20')
+
+
+# ---- second build session (DESIGN.md 10.7): guards decided over finite orderings, role-anchored rules -------------
+G = 'guards evaluated three-valued over a finite set of orderings (sa/guards.py)'
+extend('C02', 'Also: a choice between a monoisotopic and an average table is decided by the monoisotopic switch alone; '
+              'every modification source (six fields, three kinds of static target) has an additive mod_mass term; '
+              'the table builders of element_setup.py key each element by the most abundant isotope (recognised by '
+              'role, not by variable name).')
+extend('C03', 'Also: mass() and _sequence_comp resolve modifications from the same nine sources; the averagine '
+              'estimate is the plain product ratio x mass / ISOTOPIC_AVERAGINE_MASS (no clamp, rounding or offset); '
+              'Unimod composition tokens that are also element symbols are read the way that reproduces the '
+              'entry\'s own tabulated mass.')
+extend('C04', 'Also: read once per return type by path specialisation (== chains, `in` tests and merged branches '
+              'alike); get_losses enumerates combinations of every size 2..max_losses whenever max_losses > 1 '
+              '(guards decided over max_losses x matching sites); a return of _get_mass_components that bypasses '
+              'mass() is guarded on every modification field not popped before; has_mods covers all ten fields.', G)
+extend('C05', 'Also: no return of _get_mass_components bypasses mass() unless guarded on every remaining '
+              'modification field.')
+extend('C07', 'Also: slice keeps exactly start <= k < stop (decided over all orderings of k, start, stop in a small '
+              'range) and leaves the loop over the unordered position map early only over sorted(...); "not found" '
+              'exits of the search do not depend on modifications elsewhere in the target; equality does not tell '
+              'an empty position map from an absent one; has_mods covers all ten fields.', G)
+extend('C09', 'Also: look-ahead reads self.sequence[self.position + k] are dominated by a test of that index against '
+              'the length.')
+extend('C10', 'Also: prefix strippers cut the remainder from the caller\'s text, not from the case-folded copy '
+              '(data fact: bundled names with capitals).')
+extend('C11', 'Also: the filter and the early-exit condition of slice are decided over a finite set of orderings; '
+              'index maps are anchored by role (the key stored into the new position map, the Interval(...) '
+              'arguments), not by variable names.', G)
+extend('C12', 'Also: the isotope relabelling runs for every listed element with a non-zero count, negative counts '
+              'included (guards decided over count signs); no loop stores one rule list under several targets.', G)
+extend('C13', 'Also: in every mode chain the conflict test has_<site>... guards the adder add_<site>... of the same '
+              'site.')
+extend('C14', 'Also: a labelled isotope is a single peak at offset 0 in the neutron-offset table and at its own mass in '
+              'the mass table; the merged pattern starts empty and every pattern passes through the same '
+              'round-then-accumulate loop.')
+extend('C15', 'Also: the caller\'s separator never reaches a regular expression unescaped; the default count 1 is '
+              'chosen by the presence of the count text, so an explicit 0 (bundled H0O3S1) stays 0.')
+extend('C16', 'Also: coverage searches every listed subsequence with 1 <= len(query) <= len(target) (skip guards '
+              'decided over (q, n)); "not found" exits do not depend on modifications elsewhere in the target; '
+              'equality does not tell an empty position map from an absent one.', G)
+extend('C17', 'Also: every comparison against a tolerance window keeps equality inside the closed window (peak < lower '
+              'skips, peak <= upper includes, windows are disjoint only if lower > other upper); operands are '
+              'classified by role (lower/upper bound, peak).')
+extend('C18', 'Also: the mass inside the final round(..., precision) does not itself depend on precision (rounded '
+              'once); has_mods covers all ten fields (it guards the fast path of slice/split used here).')
+extend('C20', 'Also: equality does not separate annotations by presence of the position map while slice can leave an '
+              'empty one.')
